@@ -136,6 +136,7 @@ func (c *InternedStringCodec) Read(data []byte, ptr unsafe.Pointer, wt plenccore
 
 	s, ok := m[string(data)]
 	if !ok {
+		verifYield("intern-miss")
 		s = c.addString(data)
 	}
 
